@@ -35,6 +35,14 @@ func calleeName(f *ssa.Function) string {
 // call executes a call instruction and returns its result values.
 func (fr *Frame) call(site ssa.Instruction, c *ssa.CallCommon, st *State) []*Term {
 	vc := fr.vc
+	if fr.mode != nil && fr.mode.Disc {
+		if a, isLock := isLockCall(c); isLock && a {
+			fr.discLock(site, c, st)
+		}
+		if res, ok := fr.discCall(site, c, st); ok {
+			return res
+		}
+	}
 	var args []*Term
 	for _, a := range c.Args {
 		args = append(args, fr.val(a))
@@ -645,7 +653,7 @@ func (fr *Frame) havocCells(st *State, t types.Type, addr *Term) {
 // callModifies adds the components a call may modify (for loop havoc).
 // lvalueStaticType resolves the static type of a modifies item such as "*destination", "r.features" or
 // "c.entries[len(c.entries)]" from the callee's signature (nil when it cannot be resolved).
-func lvalueStaticType(m string, sig *types.Signature) types.Type {
+func (e0 *Engine) lvalueStaticType(m string, sig *types.Signature) types.Type {
 	if sig == nil {
 		return nil
 	}
@@ -681,6 +689,16 @@ func lvalueStaticType(m string, sig *types.Signature) types.Type {
 			}
 			return nil
 		case "sel":
+			if e.X.Kind == "ident" {
+				// package-level variable: <pkg>.<Var>
+				for _, p := range e0.allPkgs {
+					if p.Name() == e.X.Name {
+						if v, ok := p.Scope().Lookup(e.Name).(*types.Var); ok {
+							return v.Type()
+						}
+					}
+				}
+			}
 			t := walk(e.X)
 			if t == nil {
 				return nil
@@ -740,6 +758,66 @@ func lvalueStaticType(m string, sig *types.Signature) types.Type {
 	return walk(e)
 }
 
+// globalCell: address and heap component of a modifies item rooted at a package-level variable
+// ("spine.Events.handlers"), nil otherwise.
+func (fr *Frame) globalCell(m string) (*Term, string) {
+	vc := fr.vc
+	e, err := parseCExpr(m)
+	if err != nil {
+		return nil, ""
+	}
+	root := e
+	for root.Kind == "sel" && root.X != nil && root.X.Kind == "sel" {
+		root = root.X
+	}
+	if root.Kind != "sel" || root.X == nil || root.X.Kind != "ident" {
+		return nil, ""
+	}
+	isPkg := false
+	pkgOf := vc.eng.pkgTypes("spine")
+	for _, p := range vc.eng.allPkgs {
+		if p.Name() == root.X.Name {
+			if _, ok := p.Scope().Lookup(root.Name).(*types.Var); ok {
+				isPkg = true
+			}
+		}
+		// <Var>.<field> written inside the variable's own package
+		if strings.HasPrefix(p.Path(), "github.com/enbility/spine-go") {
+			if _, ok := p.Scope().Lookup(root.X.Name).(*types.Var); ok {
+				isPkg = true
+				pkgOf = p
+			}
+		}
+	}
+	if !isPkg {
+		return nil, ""
+	}
+	var a *Term
+	var t types.Type
+	func() {
+		defer func() {
+			if r := recover(); r != nil {
+				if _, ok := r.(evalErr); !ok {
+					panic(r)
+				}
+				a = nil
+			}
+		}()
+		ctx := &EvalCtx{vc: vc, st: &State{guard: tTrue, st: map[string]*Term{}}, pkg: pkgOf, bound: map[string]TV{}}
+		ctx.lookup = func(string) (Binding, bool) { return Binding{}, false }
+		a, t = ctx.addrOf(e)
+	}()
+	if a == nil || t == nil {
+		return nil, ""
+	}
+	if _, isStruct := structOf(t); isStruct {
+		return nil, "" // whole struct: fall back to the type-based havoc
+	}
+	k, srt := vc.heapKey(t)
+	vc.compSort[k] = srt
+	return a, k
+}
+
 func (fr *Frame) callModifies(c *ssa.CallCommon, set map[string]bool) {
 	vc := fr.vc
 	sigOf := c.Signature()
@@ -782,7 +860,16 @@ func (fr *Frame) callModifies(c *ssa.CallCommon, set map[string]bool) {
 			}
 			// lvalue: all cells of its static type (resolved from the callee's parameter types); when the type
 			// cannot be resolved every heap component materialised so far counts as modified
-			if t := lvalueStaticType(m, sigOf); t != nil {
+			if a, k := fr.globalCell(m); a != nil {
+				// a cell of a package-level variable: its address does not depend on the iteration, so a loop
+				// that calls this function changes exactly that cell (recorded, applied at the loop head)
+				if fr.loopGlobalCells == nil {
+					fr.loopGlobalCells = map[string][]*Term{}
+				}
+				fr.loopGlobalCells[k] = append(fr.loopGlobalCells[k], a)
+				continue
+			}
+			if t := vc.eng.lvalueStaticType(m, sigOf); t != nil {
 				fr.typeCells(t, set)
 				continue
 			}
